@@ -106,6 +106,8 @@ class RefSem(RefBase):
         self.waiters = []
 
     def apply(self, op):
+        if op[0] == "acq_ctx":
+            op = ("acq", None)
         if op[0] == "acq":
             i = self.new()
             if self.v > 0:
@@ -402,6 +404,12 @@ class RealAdapter:
         try:
             if name == "acq":
                 self.futs.append(o.acquire(self.timeout_arg(op[1])))
+            elif name == "acq_ctx":
+                # a task entering 'async with obj:' (and keeping the permit until a later release())
+                async def enter():
+                    await o.__aenter__()
+                    return "CM"
+                self.futs.append(self.world.loop.create_task(enter()))
             elif name == "rel":
                 o.release()
             elif name == "wait":
